@@ -49,6 +49,7 @@ def build(tier, rnd):
             out.append((("random", i), st, ["ansi", alld[i % len(alld)], alld[(i * 7 + 3) % len(alld)]]))
     out += same_alias_and_case_cases(9 if tier == "quick" else 60, common.env.seed() * 31 + 5)
     out += paren_setop_cases(15 if tier == "quick" else 100, common.env.seed() * 37 + 5)
+    out += recursive_cte_cases(6 if tier == "quick" else 40, common.env.seed() * 41 + 5)
     # statement kinds that only some dialects accept are always shown to dialects that do
     g2 = sqlgen.Gen(random.Random(99))
     for i in range(6):
@@ -100,6 +101,24 @@ def paren_setop_cases(n, seed):
             q = Select([Item(col("o_1", "dq1"))], [Group(outer, [(rnd.choice(["left", "right", "inner"]), Nested(Group(Derived(so, "dq1"), [("full", other, "on")])), "on")])])
         kind = rnd.choice(["insert", "ctas", "bare"])
         out.append((("paren_setop", i), Stmt(kind, Base(f"tb_pw{i}") if kind != "bare" else None, q), ["ansi", rnd.choice(["athena", "postgres", "mysql", "snowflake", "sparksql", "trino"])]))
+    return out
+
+
+def recursive_cte_cases(n, seed):
+    """a CTE that references itself in its own body, written without the RECURSIVE keyword (the only form tsql, oracle and db2 have,
+    optional under snowflake and sqlite): the self reference is the CTE, never a table"""
+    from vlib.sqlgen import Base, CteRef, Group, Item, Select, SetOp, Stmt, With, col
+    rnd = random.Random(seed + 13)
+    out = []
+    for i in range(n):
+        emp = lambda a=None: Base(f"tb_re{i}", rnd.choice(["sa", None]) if a is None else "sa", a)  # noqa: E731
+        nm = f"wq_r{i}"
+        anchor = Select([Item(col("c_1")), Item(col("c_2"))], [Group(emp())])
+        rec = Select([Item(col("c_1", "e")), Item(col("c_2", nm))], [Group(Base(f"tb_rf{i}", None, "e"), [("inner", CteRef(nm), "on")])])
+        body = Select([Item(col("c_1", nm)), Item(col("c_2", nm))], [Group(CteRef(nm))] if i % 2 else [Group(CteRef(nm), [("left", Base(f"tb_rg{i}", "sb"), "on")])])
+        q = With([(nm, SetOp("union all", [anchor, rec]))], body)
+        kind = rnd.choice(["insert", "ctas", "bare", "create_view"])
+        out.append((("recursive_cte", i), Stmt(kind, Base(f"tb_rw{i}", rnd.choice([None, "sb"])) if kind != "bare" else None, q), ["tsql", "snowflake", rnd.choice(["oracle", "db2", "sqlite"])]))
     return out
 
 
